@@ -109,4 +109,49 @@ prop('C11',
      assumptions=['outlined std idioms in repairable.rs: zip+collect into BTreeMap pairs the k-th smallest helper with the k-th value; cloned+collect = set of elements',
                   'the verifying share equals the public package entry when the participant existed: follows from f(participant) and C06/C07 consistency of the package, not re-proved here'],
      design_ref='DESIGN.md section 4 C11')
+DKG_FUNCS = ('part1 / compute_proof_of_knowledge / dkg::challenge / verify_proof_of_knowledge / part2 / part3 / SecretShare::verify / evaluate_vss / '
+             'evaluate_polynomial / PublicKeyPackage::from_commitment / from_dkg_commitments')
+DKG_ASSUMED = ('Assumed: sum_commitments (iter_mut().enumerate() with `?`; Kani group sumc, bounded), random_nonzero (rejection loop; being replaced by a '
+               'verified contract), generate_coefficients (RNG draws), the outlined commitments-map idiom of part3 (`iter().map(..).chain(once(..)).collect()`), '
+               'T7 identifier order, default world for the post_dkg hook (the Taproot suite overrides it: C18).')
+
+prop('C07',
+     level_text='For every ciphersuite in the default world, every n, t, identifier set and per-participant polynomial: Verus proves the real text of ' + DKG_FUNCS +
+                ' against contracts stating the whole result of each part: part1 = ([fresh key][t-1 draws] polynomial, commitment G*coefficients, proof of knowledge '
+                '(kG, k + a0*c) with c = HDKG(enc(id)||enc(a0 G)||enc(kG))); part2 = f(l) for every sender l in the map and f(own id) kept; part3 = signing share = sum of '
+                'received shares + own share, verifying share = G*that, public package = evaluate_vss over the column-wise sum of ALL commitments (own included), group key = '
+                'constant term of the sum, threshold recorded, then the post_dkg hook. Theorems: an honest proof of knowledge verifies (thm_pok_complete); a share is accepted iff '
+                'it is f_l(own id) (thm_share_accepted_iff); the public package is a function of the commitment map, hence identical for all participants who complete on the same '
+                'round-one set (thm_same_commitments_same_public_package); key package internally consistent (thm_part3_internal_consistency).',
+     level_note=DKG_ASSUMED + ' Not yet machine-checked as one theorem: the composition "all honest => public package entry of i equals G * signing share of i and any t can sign" '
+                '(needs linearity of evaluate_vss over the column sums; the per-function contracts it rests on are proved).',
+     assumptions=['composition of the honest n-party run into one theorem is argued in DESIGN.md from the proved per-function contracts, not machine-checked',
+                  'Taproot post_dkg tweak: C18'],
+     design_ref='DESIGN.md section 4 C07')
+
+prop('C08',
+     level_text='Verus proves, for all inputs, the EXACT error and culprit of every guard of part2 and part3 in source order: wrong number of packages, own identifier present '
+                '(UnknownIdentifier), commitment of the wrong length (IncorrectNumberOfCommitments), first (ascending) sender whose proof of knowledge fails '
+                '(InvalidProofOfKnowledge{culprit: sender}, or the identity/unsupported-DKG errors of the challenge), round-2 map with own identifier / other size / missing sender, '
+                'first (ascending) sender whose share does not match the commitment filed for that sender at the recipient identifier '
+                '(InvalidSecretShare{culprit: Some(sender)}); no key material is returned on any of these paths (the result is exactly Err(..)). Theorems: an honest proof verifies; a '
+                'share is accepted iff it equals f_sender(own id), so a share computed for another recipient or not matching the commitment is rejected unless it is that scalar; an altered '
+                'commitment coefficient is rejected (thm_tampered_commitment_rejected).',
+     level_note=DKG_ASSUMED + ' Not decided: "a proof made for another identifier / another commitment is rejected" needs HDKG to separate inputs (collision resistance); the contract '
+                'pins that identifier, phi_0 and R all enter the challenge preimage.',
+     assumptions=['rejection of a proof of knowledge made for another identifier or commitment: needs collision resistance of HDKG, not decided'],
+     design_ref='DESIGN.md section 4 C08')
+
+prop('C09',
+     level_text='The library keeps no state between calls (scanned), so a delivery history is a choice of arguments; the part2/part3 contracts are universally quantified over '
+                'those arguments (all n, t, not only n in {3,4}): every step either returns exactly the specified error or key material satisfying spec_part3_pre (verifying share = '
+                'G*signing share, one group key in both packages, own threshold) -- thm_part3_internal_consistency; a round-two share is accepted iff it equals the evaluation at the '
+                'recipient of the polynomial committed in the round-one package FILED UNDER THE SAME SENDER (contract of part3 + thm_share_accepted_iff); equal round-one commitment maps '
+                'give equal public key packages (thm_same_commitments_same_public_package).',
+     level_note=DKG_ASSUMED + ' part3 does not re-check commitment lengths: if a caller passes part3 a different round-one set than it passed part2, a longer commitment is silently '
+                'truncated by sum_commitments and the public package entry of the participant can differ from its verifying share; the consistency statement therefore has the premise '
+                '"all commitments have the same length" (enforced by part2 on the set it sees). Recorded in DESIGN.md section 5 as an observation, the docs require the same set.',
+     assumptions=['absence of hidden state (no statics / interior mutability / threads in frost-core)',
+                  'public-package entry == G*signing share needs equal commitment lengths (premise; enforced by part2 for the set it is given)'],
+     design_ref='DESIGN.md section 4 C09')
 prop('CDEV', level_text='dev', level_note='dev', claimed=False)
